@@ -548,6 +548,20 @@ pub fn check_vtype(ctx: &Ctx, kind: Kind, out: &mut Outcome, q: u32, t: u32) {
     finish(ctx, "", acc, found, out, "vtype", &exec, &shrink);
 }
 
+/// C09: the adaptation formula over a grid of ghost-list lengths
+pub fn check_arc_grid(ctx: &Ctx, out: &mut Outcome) {
+    let (reached, tried, bad) = crate::big::arc_adaptation_grid(ctx.tier == Tier::Thorough, ctx.workers);
+    out.coverage.insert("arc_adaptation_grid_pairs_reached".into(), json!(reached));
+    out.coverage.insert("arc_adaptation_grid_pairs_attempted".into(), json!(tried));
+    if let Some(msg) = bad {
+        let v = Violation { prop: "C09", step: 0, msg, sig: "arc/-/adaptation-grid".into() };
+        if ctx.known.matches(&ctx.id, &v.sig).is_none() {
+            let path = write_replay(&ctx.replay_dir(), &ctx.id, "arcgrid", json!({"grid": "ghost-list lengths x, y"}), &v);
+            out.violations.push((path, v.msg));
+        }
+    }
+}
+
 /// large-scale pass (10^3 .. 1.3 * 10^5 entries): code gated by size constants
 pub fn check_big(ctx: &Ctx, prop: crate::big::BigProp, kinds: &[Kind], out: &mut Outcome, q: u32, t: u32) {
     use crate::big::*;
